@@ -155,6 +155,19 @@ def c11(ctx):
         ctx.count(('replay', 'natural'))
         if r['l1']:
             ctx.violation(sig, '; '.join(r['l1'][:3]), replay=rp)
+    elif rp['kind'] == 'marker-first-only':
+        from harness.drivers import transport as T
+        pl = [bytes([(5 * i + j) % 251 for j in range(600)])
+              for i in range(10)]
+        r = T.run_asym_session(rp['role'], {}, pl,
+                               kw=dict(rekey_bytes=rp['rekey_bytes']),
+                               raw_kw=dict(strict_first_only=True))
+        print('outcome:', r['outcome'], 'echoed:',
+              [len(p) for p in r['echoed']])
+        ctx.count(('replay', 'marker-first-only'))
+        if r['outcome'] != 'ok' or r['echoed'] != pl:
+            ctx.violation(sig, f'session outcome {r["outcome"]}, echoed '
+                          f'{[len(p) for p in r["echoed"]]}', replay=rp)
     else:
         raise SystemExit(f'replay kind {rp["kind"]} needs the model states; '
                          'run the check itself')
